@@ -4,6 +4,7 @@
 package lockmap
 
 import (
+	"os"
 	"bytes"
 	"context"
 	"fmt"
@@ -44,8 +45,8 @@ type Run struct {
 	Procs map[string][]Event `json:"procs"`
 	Final []Snap             `json:"final"`
 	// diagnostics (not read by the specification)
-	Blocked  []string `json:"blocked,omitempty"`  // "p@step": released but made no progress within the wait (it is blocked inside a primitive)
-	Stuck    []string `json:"stuck,omitempty"`    // goroutines still blocked at the end of the run
+	Blocked  []string `json:"blocked,omitempty"` // "p@step": released but made no progress within the wait (it is blocked inside a primitive)
+	Stuck    []string `json:"stuck,omitempty"`   // goroutines still blocked at the end of the run
 	Schedule []Step   `json:"-"`
 }
 
@@ -55,15 +56,17 @@ var parking = map[string]bool{"Lock.start": true, "Lock.inMu": true, "Lock.after
 var underMu = map[string]bool{"Lock.inMu": true, "ret.inMu": true, "Unlock.inMu": true}
 
 type proc struct {
-	name    string
-	gate    chan struct{}
-	arrived chan string // "call" (at the call gate), a parking hook name, or "exit"
-	calls   chan Step
-	cancel  context.CancelFunc
-	key     string
-	parked  bool // waiting at a gate (call gate or parking hook)
-	atGate  bool // ... and that gate is the call gate (between calls)
-	holding string // the key its last Lock call acquired and it has not unlocked yet
+	name      string
+	gate      chan struct{}
+	arrived   chan string // "call" (at the call gate), a parking hook name, or "exit"
+	calls     chan Step
+	cancel    context.CancelFunc
+	key       string
+	parked    bool   // waiting at a gate (call gate or parking hook)
+	atGate    bool   // ... and that gate is the call gate (between calls)
+	holding   string // the key its last Lock call acquired and it has not unlocked yet
+	at        string // the hook it is parked at ("call": its call gate)
+	unlocking string // the key of the Unlock call it is inside of (it still holds the key until that call's receive)
 }
 
 type runner struct {
@@ -174,7 +177,11 @@ func (r *runner) body(p *proc) {
 				r.log(p, Event{Pt: "ret", K: st.K, Res: strconv.FormatBool(ok)})
 			case "unlock", "badunlock":
 				r.log(p, Event{Pt: "call.Unlock", K: st.K})
+				if st.A == "unlock" {
+					p.unlocking = st.K
+				}
 				p.holding = ""
+				defer func() { p.unlocking = "" }()
 				r.lm.Unlock(st.K)
 				r.log(p, Event{Pt: "ret", K: st.K, Res: "unlocked"})
 			}
@@ -210,6 +217,7 @@ func Execute(id int, sched []Step, procNames []string, wait time.Duration, probe
 					if pt != "exit" {
 						p.parked = true
 						p.atGate = pt == "call"
+						p.at = pt
 					}
 					continue
 				default:
@@ -218,16 +226,24 @@ func Execute(id int, sched []Step, procNames []string, wait time.Duration, probe
 			}
 		}
 	}
+	dbg := os.Getenv("VERIF_DEBUG") != ""
 	release := func(p *proc, what string) bool {
 		if !p.parked {
 			return false
+		}
+		if dbg {
+			fmt.Fprintf(os.Stderr, "release %s (%s) from %q\n", p.name, what, p.at)
 		}
 		p.parked = false
 		p.gate <- struct{}{}
 		select {
 		case pt := <-p.arrived:
+			if dbg {
+				fmt.Fprintf(os.Stderr, "  %s arrived at %q\n", p.name, pt)
+			}
 			p.parked = true
 			p.atGate = pt == "call"
+			p.at = pt
 			return true
 		case <-time.After(wait):
 			run.Blocked = append(run.Blocked, p.name+"@"+what)
@@ -251,20 +267,35 @@ func Execute(id int, sched []Step, procNames []string, wait time.Duration, probe
 					break
 				}
 				if st.A == "badunlock" {
-					// a rogue unlock is only issued while nobody holds or awaits anything (the property is about
-					// unlocking a key that is NOT held; racing with an acquisition it could legitimately steal the lock)
+					// a rogue unlock is about a key that is NOT held: it is issued only while every other goroutine is
+					// parked (at its call gate or at a hook before the acquisition, so none can acquire meanwhile) and
+					// none holds the key or is inside the Unlock call that gives it back. Goroutines that have registered
+					// for the key but not acquired it yet may be there: the unlock must panic and leave their
+					// registration alone.
 					quiet := true
 					for _, q := range r.procs {
-						if !(q.parked && q.atGate) || q.holding != "" {
+						// (a goroutine parked inside the map mutex would block the rogue call half-way)
+						if q != p && (!q.parked || q.holding == st.K || q.unlocking == st.K || underMu[q.at]) {
 							quiet = false
 						}
 					}
 					if !quiet {
 						break
 					}
+					if os.Getenv("VERIF_DEBUG") != "" {
+						for _, q := range r.procs {
+							fmt.Fprintf(os.Stderr, "rogue %s %s: %s parked=%v at=%q atGate=%v holding=%q\n", p.name, st.K, q.name, q.parked, q.at, q.atGate, q.holding)
+						}
+					}
 				}
 				p.calls <- st
 				release(p, st.A)
+				if st.A == "badunlock" {
+					// ... and it runs to its end before anybody else moves
+					for n := 0; n < 20 && p.parked && !p.atGate; n++ {
+						release(p, "badunlock")
+					}
+				}
 			}
 		case "step":
 			if !p.atGate {
@@ -281,6 +312,7 @@ func Execute(id int, sched []Step, procNames []string, wait time.Duration, probe
 					case pt := <-p.arrived:
 						p.parked = true
 						p.atGate = pt == "call"
+						p.at = pt
 					case <-time.After(wait):
 					}
 				}
@@ -324,7 +356,7 @@ func Execute(id int, sched []Step, procNames []string, wait time.Duration, probe
 					p.cancel = nil
 					select {
 					case pt := <-p.arrived:
-						p.parked, p.atGate = true, pt == "call"
+						p.parked, p.atGate, p.at = true, pt == "call", pt
 					case <-time.After(wait):
 					}
 				}
